@@ -74,7 +74,7 @@ def h_scalars(ctx, d, n):
     acc = teneva.accuracy(Y, Zr)                          # undefined relative accuracy
     ok = True
     if not is_sym(ctx):
-        ok = not math.isnan(float(acc))
+        ok = math.isfinite(float(acc))                    # a sentinel or a saturation value, never NaN / inf
     ctx.claim('accuracy_not_nan', ok)
     acc0 = teneva.accuracy(Zr, Zr)
     if is_sym(ctx):
